@@ -154,6 +154,79 @@ func Harness_C02_table_seek_ref() {
 	VerifCover("done")
 }
 
+// indexLevels counts the index levels above the ref section, walking down from the footer's ref index position through first children (independent decoder).
+func indexLevels(data []byte) int {
+	t := specDecodeTable(data)
+	if !t.ok {
+		return -1
+	}
+	levels := 0
+	pos := t.refIndex
+	for pos != 0 {
+		var blk *specBlock
+		for i := range t.blocks {
+			if t.blocks[i].pos == pos {
+				blk = &t.blocks[i]
+			}
+		}
+		if blk == nil || blk.typ != 'i' || len(blk.recs) == 0 {
+			break
+		}
+		levels++
+		pos = blk.recs[0].pos
+		if pos == 0 {
+			// the first child of the lowest index level is the first ref block at offset 0
+			break
+		}
+	}
+	return levels
+}
+
+// Harness_C02_table_seek_deep: seeks through an index of four or more levels (small blocks, many refs).
+// bounds: 120 refs with 19-byte names, BlockSize 96, RestartInterval 1, aligned and unaligned, no object index (one ref per block, three entries per index block: at least 4 index levels, checked with the independent decoder); k = every string of length 0..2 over all byte values, or any of the 120 names exactly; SeekRef suffix
+// covers: done
+func Harness_C02_table_seek_deep() {
+	sh := shape{nRefs: 120, cfg: Config{BlockSize: 96, Unaligned: VerifChoose(2) == 1, RestartInterval: 1, SkipIndexObjects: true}}
+	refs, _ := buildShape(sh)
+	for _, r := range refs {
+		r.RefName += "/xxxxxxxxxxxxxxxx" // long keys: one ref per block, two entries per index block
+	}
+	data, ok := writeTable(sh.cfg, 1, 4, refs, nil)
+	VerifAssert(ok, "writer-accepts")
+	VerifAssert(indexLevels(data) >= 4, "base-has-four-index-levels")
+	rd, err := NewReader(&ByteBlockSource{data}, "t")
+	VerifAssert(err == nil, "newreader")
+	var needle string
+	if VerifChoose(2) == 1 {
+		needle = refs[VerifChoose(len(refs))].RefName // every key exactly
+	} else {
+		needle = symString(VerifIntRange(0, 2))
+	}
+	it, err := rd.SeekRef(needle)
+	VerifAssert(err == nil, "seek-err")
+	if err != nil {
+		return
+	}
+	start := 0
+	for start < len(refs) && refs[start].RefName < needle {
+		start++
+	}
+	for i := start; i < len(refs); i++ {
+		var got RefRecord
+		ok, err := it.NextRef(&got)
+		VerifAssert(err == nil, "suffix-err")
+		VerifAssert(ok, "suffix-short")
+		if !ok || err != nil {
+			return
+		}
+		VerifAssert(refEq(&got, refs[i]), "suffix-payload")
+	}
+	var got RefRecord
+	ok, err = it.NextRef(&got)
+	VerifAssert(err == nil && !ok, "suffix-extra")
+	VerifCover("done")
+}
+
 // Harness_C02_table_seek_log: SeekLog(name, u) yields the scan suffix starting at the newest entry of name with update index <= u.
 // bounds: the shapes with logs; name = every NUL-free string of length 0..3, u = every 64-bit value
 // assumes: ref names contain no NUL byte (the log key format is name NUL reversed-index)
@@ -171,11 +244,22 @@ func Harness_C02_table_seek_log() {
 		VerifAssume(name[i] != 0) // the log key is name NUL index: names cannot contain NUL
 	}
 	u := VerifU64()
+	// seeks in another section through the same reader, before and after: one lookup must not steer the next
+	probeRef := func(label string) {
+		if len(refs) == 0 {
+			return
+		}
+		mid := refs[len(refs)/2]
+		rec, err := ReadRef(rd, mid.RefName)
+		VerifAssert(err == nil && rec != nil && refEq(rec, mid), label)
+	}
+	probeRef("ref-lookup-before-log-seek")
 	it, err := rd.SeekLog(name, u)
 	VerifAssert(err == nil, "seek-err")
 	if err != nil {
 		return
 	}
+	probeRef("ref-lookup-after-log-seek")
 	want := &LogRecord{RefName: name, UpdateIndex: u}
 	start := 0
 	for start < len(logs) && specLogLess(logs[start], want) {
